@@ -343,6 +343,10 @@ func (p proxyHandler) writeErrorResponse(rw http.ResponseWriter, req *http.Reque
 	res := maybeConnectErrorResponse(err)
 	if res == nil {
 		res = p.errorResponse(req, err)
+	} else {
+		// The response was built for the transport's CONNECT request, bind it to the client's request.
+		res.Request = req
+		res.Proto, res.ProtoMajor, res.ProtoMinor = req.Proto, req.ProtoMajor, req.ProtoMinor
 	}
 	if err := p.modifyResponse(res); err != nil {
 		log.Error(req.Context(), "error modifying error response", "error", err)
